@@ -94,6 +94,21 @@ func randCase(r *hx.Rand, d stats.DistCommon, params, tag string) {
 			}
 		}
 	})
+	// the documented nil source (global generator): values are not reproducible, only their
+	// finiteness is observed
+	if ok {
+		ok = guard("rand-nil", func() {
+			for k := 0; k < 50; k++ {
+				v := gen(nil)
+				if math.IsInf(v, 0) || math.IsNaN(v) {
+					if bad == 0 {
+						firstBad = n + k
+					}
+					bad++
+				}
+			}
+		})
+	}
 	hx.Printf("case %d kind=rand %s n=%d nonfinite=%d firstbad=%d tag=rand+%s\n", id, params, n, bad, firstBad, tag)
 	if ok {
 		hx.Printf("sobs %d finite=ok\n", id)
